@@ -18,6 +18,8 @@ import (
 
 var registry = map[string]func(*rules.Ctx){
 	"C04": rules.C04,
+	"C05": rules.C05,
+	"C06": rules.C06,
 }
 
 func main() {
